@@ -31,6 +31,13 @@ theorem entry_read {β} (indices : List Int) (values : List β) (hok : IndexedOK
   · rw [pySlice_nonneg values _ _ ha0 (by omega) hbl hab, slice_length_le _ _ _ (by omega)]
     omega
 
+/-- a prefix never holds more bytes than the whole list: the fill position of the second pass stays inside `v_result` -/
+theorem sumLen_take_le {β} (es : List (List β)) (i : Nat) : sumLen (es.take i) ≤ sumLen es := by
+  have h := sumLen_append (es.take i) (es.drop i)
+  rw [List.take_append_drop] at h
+  have := sumLen_nonneg (es.drop i)
+  omega
+
 /-- `safe_map_indexed_values`: the destination is the stored form of the list of entries `es` in which row `i` is the
     source entry `map[i]` where the filter is set and `empty` elsewhere -/
 theorem safeMapIndexedValues_spec {β} (indices : List Int) (values : List β) (m : List Int) (filt : List Bool)
@@ -42,22 +49,35 @@ theorem safeMapIndexedValues_spec {β} (indices : List Int) (values : List β) (
       es[i]? = if b then (entries indices values)[k.toNat]? else some empty) :
     safeMapIndexedValues indices values m filt empty = .ok (encodeIndexed es) := by
   -- first pass: only reads
-  have h1 := forE_rule (smivLenStep indices m filt empty.length) (fun _ _ => True) m.length 0 0 trivial
+  -- first pass: only reads; its result is the number of bytes of `es`, the size `v_result` is allocated with
+  have h1 := forE_rule (smivLenStep indices m filt empty.length) (fun i len => len = sumLen (es.take i)) m.length 0 0
+    (by simp [sumLen])
     (by
-      intro i len _ hi _
+      intro i len _ hi hlenI
       have hi' : i < m.length := by omega
       have hgm : m[i]? = some m[i] := List.getElem?_eq_getElem hi'
       have hgf : filt[i]? = some filt[i] := List.getElem?_eq_getElem (by omega)
+      have hesi := hes i m[i] filt[i] hgm hgf
       cases hb : filt[i] with
-      | false => exact ⟨_, by simp only [smivLenStep, hgf, hb]; rfl, trivial⟩
+      | false =>
+        rw [hb] at hesi
+        have ht := take_succ_of_getElem? es i empty (by simpa using hesi)
+        refine ⟨_, by simp only [smivLenStep, hgf, hb]; rfl, ?_⟩
+        simp only [ht, sumLen_append, hlenI, sumLen]; omega
       | true =>
+        rw [hb] at hesi
         obtain ⟨h0, hk⟩ := hr i m[i] hgm (by rw [hgf, hb])
-        obtain ⟨a, b, ga, gb, _, _⟩ := entry_read indices values hok m[i] h0 hk
+        obtain ⟨a, b, ga, gb, hent, hel⟩ := entry_read indices values hok m[i] h0 hk
           "data_indices[map_field[i]]" "data_indices[map_field[i]+1]"
-        exact ⟨_, by simp only [smivLenStep, hgf, hb, hgm, ga, gb]; rfl, trivial⟩)
-  obtain ⟨len, hpass1, _⟩ := h1
+        have ht := take_succ_of_getElem? es i (pySlice values a b) (by simpa [hent] using hesi)
+        refine ⟨_, by simp only [smivLenStep, hgf, hb, hgm, ga, gb]; rfl, ?_⟩
+        simp only [ht, sumLen_append, hlenI, sumLen, hel]; omega)
+  obtain ⟨len, hpass1, hlen1⟩ := h1
+  simp only [Nat.zero_add] at hlen1
+  rw [← hesLen, List.take_length] at hlen1
+  subst hlen1
   -- second pass
-  have h2 := forE_rule (smivStep indices values m filt empty)
+  have h2 := forE_rule (smivStep indices values m filt empty (m.length + 1) (sumLen es))
     (fun i s => s.offset = sumLen (es.take i) ∧ s.iRes = 0 :: runSums 0 (es.take i) ∧ s.vRes = (es.take i).flatten)
     m.length 0 ⟨0, [0], []⟩ ⟨by simp [sumLen], by simp [runSums], by simp⟩
     (by
@@ -70,7 +90,12 @@ theorem safeMapIndexedValues_spec {β} (indices : List Int) (values : List β) (
       | false =>
         rw [hb] at hesi
         have ht := take_succ_of_getElem? es i empty (by simpa using hesi)
-        refine ⟨_, by simp only [smivStep, hgf, hb]; rfl, ?_, ?_, ?_⟩
+        have hcapI : ¬ m.length + 1 ≤ i + 1 := by omega
+        have hfit : ¬ sumLen es < s.offset + (empty.length : Int) := by
+          have := sumLen_take_le es (i + 1)
+          simp only [ht, sumLen_append, sumLen] at this
+          omega
+        refine ⟨_, by simp only [smivStep, hgf, hb, hcapI, hfit, if_false, decide_false, Bool.and_false, Bool.false_eq_true]; rfl, ?_, ?_, ?_⟩
         · simp only [ht, sumLen_append, hoff, sumLen]; omega
         · simp only [ht, runSums_append, hiR, hoff, runSums, List.cons_append]; simp
         · simp only [ht, List.flatten_append, hvR]; simp
@@ -80,7 +105,12 @@ theorem safeMapIndexedValues_spec {β} (indices : List Int) (values : List β) (
         obtain ⟨a, b, ga, gb, hent, hel⟩ := entry_read indices values hok m[i] h0 hk
           "data_indices[map_field[i]]" "data_indices[map_field[i]+1]"
         have ht := take_succ_of_getElem? es i (pySlice values a b) (by simpa [hent] using hesi)
-        refine ⟨_, by simp only [smivStep, hgf, hb, hgm, ga, gb]; rfl, ?_, ?_, ?_⟩
+        have hcapI : ¬ m.length + 1 ≤ i + 1 := by omega
+        have hfit : ¬ sumLen es < s.offset + (b - a) := by
+          have := sumLen_take_le es (i + 1)
+          simp only [ht, sumLen_append, sumLen] at this
+          omega
+        refine ⟨_, by simp only [smivStep, hgf, hb, hgm, ga, gb, hcapI, hfit, if_false]; rfl, ?_, ?_, ?_⟩
         · simp only [ht, sumLen_append, hoff, sumLen, hel]; omega
         · simp only [ht, runSums_append, hiR, hoff, runSums, List.cons_append, hel]; simp
         · simp only [ht, List.flatten_append, hvR]; simp)
